@@ -269,7 +269,7 @@ func c13Cases(tier string) []c13Case {
 func init() {
 	explore.Register(&explore.CheckDef{
 		ID: "C13", Level: "exploration",
-		Rule:   "cross product on fresh worlds, crash-isolated: log shape {empty, chain 1..3, fork, two-writer merge, replicated only, replication in progress (fetch parked while saving)} x store type (plus chains of 10 entries of 20000 / 30000 bytes and of 200 small entries: snapshot files of several unixfs chunks) x payload-size landmarks {0,1,100,4Ki,30000,65535,65536,100Ki, three sizes that put the snapshot file around the 262144-byte unixfs chunk boundary, 300Ki}, plus windows of consecutive payload sizes (step 1; +-12 quick, +-70 thorough) around the measured sizes at which the marshalled entry and the marshalled header cross 65535 bytes, on two shapes. SaveSnapshot, restart the instance on the same cache and blockstore, LoadFromSnapshot. Oracle: a save error passes; otherwise the reload must succeed and reproduce entry set, ordered list, heads and view (superset for the in-progress shape); a panic or hang is a violation. Saving while the database changes: SaveSnapshot is given the real store behind a wrapper that counts its log calls; a whole local write, a whole replication merge of two remote entries, or both, run before any chosen call (every call, every ordered pair of calls); a successful save must then reload, contain everything held before saving began, nothing that was never written, be closed under ancestry, and show the view of its own log. Non-trivial = cases with payload size >= 4096 or a non-chain shape.",
+		Rule:   "cross product on fresh worlds, crash-isolated: log shape {empty, chain 1..3, fork, two-writer merge, replicated only, replication in progress (fetch parked while saving)} x store type (plus chains of 10 entries of 20000 / 30000 bytes and of 200 small entries: snapshot files of several unixfs chunks) x payload-size landmarks {0,1,100,4Ki,30000,65535,65536,100Ki, three sizes that put the snapshot file around the 262144-byte unixfs chunk boundary, 300Ki}, plus windows of consecutive payload sizes (step 1; +-12 quick, +-70 thorough) around the measured sizes at which the marshalled entry and the marshalled header cross 65535 bytes, on two shapes. SaveSnapshot, restart the instance on the same cache and blockstore, LoadFromSnapshot. Oracle: a save error passes; otherwise the reload must succeed and reproduce entry set, ordered list, heads and view (superset for the in-progress shape); a panic or hang is a violation. Saving while the database changes: SaveSnapshot is given the real store behind a wrapper that counts its log calls; a whole local write, a whole replication merge of two remote entries, or both, run before any chosen call (every call, every ordered pair of calls); a successful save must then reload, contain everything held before saving began, nothing that was never written, be closed under ancestry, and show the view of its own log. Storage faults: each of the cache writes SaveSnapshot makes fails in turn (with and without an older snapshot in place): the save reports the error, or a fresh instance reloads exactly what was saved. Non-trivial = cases with payload size >= 4096 or a non-chain shape.",
 		Units:  func(tier string) []explore.Unit { return explore.ChunkUnits("c13-"+tier, 16) },
 		Budget: func(tier string) float64 { return 500 },
 		RunUnit: func(c *explore.Ctx) {
@@ -285,6 +285,15 @@ func init() {
 					_, out, vs := runC13Concurrent(cc)
 					return out, vs
 				}})
+			}
+			for _, k := range []string{"eventlog", "keyvalue", "docstore"} {
+				for failing := 1; failing <= 3; failing++ {
+					for _, older := range []bool{false, true} {
+						k, failing, older := k, failing, older
+						cases = append(cases, explore.Case{ID: fmt.Sprintf("%s save with cache write %d failing older=%v", k, failing, older), Nontrivial: true,
+							Run: func() (string, []explore.Violation) { return runC13SaveFault(k, failing, older) }})
+					}
+				}
 			}
 			explore.RunCases(c, "C13", cases, i, n)
 		},
